@@ -66,13 +66,13 @@ func vpGet(name string) uint64 {
 	return v
 }
 
-func vpTier() int                  { vpLoad(); return vpIn.Tier }
-func vpSymbolic() bool             { return false }
-func vpBool(name string) bool      { return vpGet(vpName(name)) != 0 }
-func vpInt64(name string) int64    { return int64(vpGet(vpName(name))) }
-func vpInt(name string) int        { return int(int64(vpGet(vpName(name)))) }
-func vpUint64(name string) uint64  { return vpGet(vpName(name)) }
-func vpByte(name string) byte      { return byte(vpGet(vpName(name))) }
+func vpTier() int                 { vpLoad(); return vpIn.Tier }
+func vpSymbolic() bool            { return false }
+func vpBool(name string) bool     { return vpGet(vpName(name)) != 0 }
+func vpInt64(name string) int64   { return int64(vpGet(vpName(name))) }
+func vpInt(name string) int       { return int(int64(vpGet(vpName(name)))) }
+func vpUint64(name string) uint64 { return vpGet(vpName(name)) }
+func vpByte(name string) byte     { return byte(vpGet(vpName(name))) }
 func vpChoice(name string, n int) int {
 	v := int(vpGet(vpName(name)))
 	if v < 0 || v >= n {
@@ -167,19 +167,22 @@ func vpAllBytesIn(s string, set string) bool {
 func vpValidUTF8(s string) bool { return utf8.ValidString(s) }
 
 // Stubbing, opaque packages and the lockset monitor exist only in the engine.
-func vpStub(name string, f any)                          {}
-func vpOpaque(pkg string)                                {}
-func vpReal(name string)                                 {}
-func vpConcretize(x int64) int64                         { return x }
-func vpDecide(c bool) bool                               { return c }
-func vpGuardedBy(root any, mu any, immutable ...string)  {}
-func vpUnguard()                                         {}
-func vpLockEvents(reset bool) int                        { return 0 }
-func vpSelectFirst(on bool)                              {}
-func vpYield()                                           {}
-func vpIsOpaqueStr(s string) bool                        { return false }
-func vpNote(s string)                                    { vpObs = append(vpObs, s) }
-func vpSameObject(a, b any) bool                         { return a == b }
+func vpStub(name string, f any)                         {}
+func vpOpaque(pkg string)                               {}
+func vpReal(name string)                                {}
+func vpConcretize(x int64) int64                        { return x }
+func vpDecide(c bool) bool                              { return c }
+func vpGuardedBy(root any, mu any, immutable ...string) {}
+func vpUnguard()                                        {}
+func vpLockEvents(reset bool) int                       { return 0 }
+func vpSelectFirst(on bool)                             {}
+func vpYield()                                          {}
+func vpIsOpaqueStr(s string) bool                       { return false }
+func vpNote(s string)                                   { vpObs = append(vpObs, s) }
+func vpNoteInt64(tag string, v int64)                   { vpObs = append(vpObs, fmt.Sprintf("%s=%d", tag, v)) }
+func vpNoteBool(tag string, v bool)                     { vpObs = append(vpObs, fmt.Sprintf("%s=%v", tag, v)) }
+func vpNoteStr(tag string, v string)                    { vpObs = append(vpObs, fmt.Sprintf("%s=%x", tag, v)) }
+func vpSameObject(a, b any) bool                        { return a == b }
 
 var vpHashMemo = map[string]uint64{}
 
